@@ -687,4 +687,30 @@ Section RootTarget.
     - rewrite Heff. exact root_formula_legal.
     - intros y Hy. rewrite <- in_rev. now apply (sort_by_In (lt_depth_id m)).
   Qed.
+
+  (* exactly-once accounting for a restart: every active state is left once, the default descent entered once *)
+  Theorem root_accounting eng pr t ev s0 s1 :
+    NoDup (s_cfg s0) ->
+    exec_external eng pr m t 0 ev s0 = (s1, None) ->
+    exists seg, s_log s1 = seg ++ s_log s0
+      /\ NoDup (leaves_of seg) /\ NoDup (AccountP.enters_of seg)
+      /\ (forall x, In x (leaves_of seg) <-> In x (s_cfg s0))
+      /\ (forall x, In x (s_cfg s1) <-> In x (AccountP.enters_of seg)).
+  Proof.
+    intros Hnd Hex.
+    destruct (AccountP.external_log m eng pr t 0 ev s0 s1 Hnd Hex) as [seg [Elog [Elv Een]]].
+    cbv zeta in Elv, Een. rewrite (good_root m Hgood) in Een. rewrite ext_exit_set_root in Elv. rewrite ext_path_root in Een.
+    rewrite (entered_nil (S (size m)) m), app_nil_r in Een.
+    pose proof (external_effect m eng pr t 0 ev s0 s1 Hex) as Heff. cbv zeta in Heff.
+    rewrite (good_root m Hgood) in Heff. rewrite (entered_nil (S (size m)) m) in Heff. unfold add_all at 1 in Heff. cbn [fold_left] in Heff.
+    rewrite ext_exit_set_root, ext_path_root in Heff.
+    rewrite (remove_all_super (rev (sort_by (lt_depth_id m) (s_cfg s0))) (s_cfg s0)) in Heff
+      by (intros y Hy; rewrite <- in_rev; now apply (sort_by_In (lt_depth_id m))).
+    exists seg. split; [exact Elog|]. rewrite Elv, Een. split; [|split; [|split]].
+    - apply NoDup_rev. now apply (Permutation_NoDup (sort_by_perm (lt_depth_id m) (s_cfg s0))).
+    - rewrite (entered_ok m Hwf (S (size m)) [0] root_ok_list). cbn [map List.concat]. rewrite app_nil_r.
+      apply (descent_nodup m Hwf). apply (wf_size m Hwf).
+    - intros x. rewrite <- in_rev. apply (sort_by_In (lt_depth_id m)).
+    - intros x. rewrite Heff. unfold add_all. rewrite fold_cadd_In. simpl. tauto.
+  Qed.
 End RootTarget.
